@@ -1491,6 +1491,13 @@ fn search_c08(tier: &str, seed: u64) {
                 deep.push(write_doc(&n, &Style::default()).into_bytes());
             }
         }
+        // start tags with 0..9 attributes, on a first-seen and on a repeated element (the damage lands behind them)
+        for k in 0..10usize {
+            let attrs: String = (0..k).map(|i| format!(" a{i}=\"v\"")).collect();
+            deep.push(format!("<r><e{attrs}/></r>").into_bytes());
+            deep.push(format!("<r><e/><e{attrs}>t</e></r>").into_bytes());
+            deep.push(format!("<e{attrs}/>").into_bytes());
+        }
         let nd = if tier == "thorough" { 1500 } else { 250 };
         for _ in 0..nd {
             deep.push(write_doc(&random_doc(&mut rng2, &["a", "b", "c"], &["x", "y"], 4, 16), &Style::default()).into_bytes());
@@ -1532,7 +1539,7 @@ fn search_c08(tier: &str, seed: u64) {
         }
         stats.evals += 2;
     }
-    stats.print("pairs (initial input, extension input): well-formed small documents and the listed element-less inputs, unmodified and after 1-3 seeded byte-level mutations (delete, insert markup/duplicate attribute/invalid UTF-8 fragments, truncate, overwrite); verdict and error position compared with an independent pass over the reader events in stream order; plus the threshold family and seeded random documents of up to 16 elements (depth 4) in which every start tag in turn receives a duplicated attribute, a non-UTF-8 attribute key, a non-UTF-8 name byte, a value-less and an unquoted attribute (as initial input and as extension); plus one streamed input of 4.3 GB whose mismatched end tag lies beyond byte 2^32", &sample);
+    stats.print("pairs (initial input, extension input): well-formed small documents and the listed element-less inputs, unmodified and after 1-3 seeded byte-level mutations (delete, insert markup/duplicate attribute/invalid UTF-8 fragments, truncate, overwrite); verdict and error position compared with an independent pass over the reader events in stream order; plus the threshold family and seeded random documents of up to 16 elements (depth 4) (and start tags with 0-9 attributes) in which every start tag in turn receives a duplicated attribute, a non-UTF-8 attribute key, a non-UTF-8 name byte, a value-less and an unquoted attribute (as initial input and as extension); plus one streamed input of 4.3 GB whose mismatched end tag lies beyond byte 2^32", &sample);
 }
 
 // ------------------------------------------------------------------------------------------------ C07
